@@ -161,8 +161,9 @@ def rule_R6(chk, repo):
     n = 0
     for cname, spin in (('MolecularOpGraphNodes', False), ('SpinMolecularOpGraphNodes', True)):
         ci = repo.cls(cname)
-        fq = family_qnums(ci.methods['__init__'].node)
-        gg = ci.methods['generate_graph']
+        from ..normal import class_method
+        fq = family_qnums(class_method(ci.methods['__init__']).node)
+        gg = class_method(ci.methods['generate_graph'])
         spins = spin_variables(gg.node)
         for call in ast.walk(gg.node):
             if not (isinstance(call, ast.Call) and norm(call.func) == 'OpGraphEdge' and len(call.args) >= 3):
@@ -310,7 +311,8 @@ def rule_R8(chk, repo, rid='C07.R8'):
     n = 0
     for cname, spin in (('MolecularOpGraphNodes', False), ('SpinMolecularOpGraphNodes', True)):
         ci = repo.cls(cname)
-        gg = ci.methods['generate_graph']
+        from ..normal import class_method
+        gg = class_method(ci.methods['generate_graph'])
         spins = spin_variables(gg.node)
         for call in ast.walk(gg.node):
             if not (isinstance(call, ast.Call) and norm(call.func) == 'OpGraphEdge' and len(call.args) >= 3):
